@@ -578,15 +578,18 @@ func (env *specEnv) call(e *ast.CallExpr) Val {
 				cs = append(cs, eq(a.ts[i], b.ts[i]))
 			}
 			return Val{ts: []Term{and(cs...)}}
-		case "verif_lastresn":
+		case "verif_lastresn", "verif_nthres":
 			tv := env.info.Types[e.Args[0]]
 			iv := env.info.Types[e.Args[1]]
 			if tv.Value == nil || iv.Value == nil {
-				return env.fail(e, "lastresn needs constant name and index")
+				return env.fail(e, "lastresn / nthres need a constant name and index")
 			}
 			cn := strings.Trim(tv.Value.ExactString(), `"`)
 			key := "$res:" + cn
-			if iv.Value.ExactString() != "0" {
+			if id.Name == "verif_nthres" {
+				// nthres(name, k): first result leaf of the k-th counted call, k = 1..3
+				key = fmt.Sprintf("$res:%s@%s", cn, iv.Value.ExactString())
+			} else if iv.Value.ExactString() != "0" {
 				key = fmt.Sprintf("$res:%s:%s", cn, iv.Value.ExactString())
 			}
 			x.regKey(key, "Int")
